@@ -51,6 +51,17 @@ def generate(rng, tier):
                 c["desc"]["lorch"] = False
             c["desc"]["window"] = "edge_at_zero"
             c["desc"]["zero_on_grid"] = True
+        if i % 10 == 9 and len(c["xin"]) >= 3 and not c["omitted"] and not (i % 6 == 5):
+            # abscissae on both sides of zero (or all below it) and NO lower limit given: omitting it means the full data range
+            k = len(c["xin"]) // 2
+            shift = c["xin"][k] + (0.0 if (i // 10) % 2 else 0.013)
+            if (i // 10) % 3 == 2 and not c["lorch"]:
+                shift = c["xin"][-1] + 0.25          # every abscissa negative
+            c["xin"] = [v - shift for v in c["xin"]]
+            c["int_dtype"] = [False, c["int_dtype"][1], c["int_dtype"][2]]
+            c["xmin"] = None
+            c["xmax"] = None if (i // 10) % 2 else c["xin"][-1]
+            c["desc"]["window"] = "no_lower_limit_negative_abscissae"
         cases.append(c)
     return cases
 
